@@ -3,6 +3,11 @@ package props
 import (
 	"math/big"
 	"os"
+	"sort"
+
+	ethledger "github.com/meshplus/eth-kit/ledger"
+
+	"verifharness/sim"
 )
 
 func bigInt(v int64) *big.Int { return big.NewInt(v) }
@@ -10,3 +15,17 @@ func bigInt(v int64) *big.Int { return big.NewInt(v) }
 func removeAll(dir string) { _ = os.RemoveAll(dir) }
 
 var bigOne = bigInt(1)
+
+func sortStrings(s []string) { sort.Strings(s) }
+
+func accountOfKey(d *sim.Dump, key string) *ethledger.InnerAccount {
+	v, ok := d.KV[key]
+	if !ok {
+		return nil
+	}
+	acc := &ethledger.InnerAccount{Balance: big.NewInt(0)}
+	if err := acc.Unmarshal(v); err != nil {
+		return nil
+	}
+	return acc
+}
